@@ -88,7 +88,7 @@ Definition resched_ms : Z := 250%Z.
 Definition models_per_gpu : nat := 3.
 Definition two64 : N := 18446744073709551616%N.
 Definition pred_wrap (n : N) : N := if N.eqb n 0 then (two64 - 1)%N else N.pred n.
-Definition succ_wrap (n : N) : N := if N.eqb (N.succ n) two64 then 0%N else N.succ n.
+(* refCount++ is modelled without wrap-around: overflow would need 2^64 simultaneous holders of one runner *)
 
 (* ------------------------------------------------------------------ list helpers *)
 
@@ -287,7 +287,7 @@ Definition run_pc (c : config) (s : state) (t : nat) (p : pc) (alt : Z) : option
       guard (is_none (r_mu x) && Z.eqb alt 0) (
       if fxB (c_fix c) && r_closed x then Some (goto s t (PLk q), [])
       else
-        let x1 := r_set_tm (r_set_ref x (succ_wrap (r_ref x))) TNone in
+        let x1 := r_set_tm (r_set_ref x (N.succ (r_ref x))) TNone in
         let x2 := match sp_ka (q_spec y) with Some d => r_set_dur x1 d | None => x1 end in
         Some (goto (setr s r (r_set_mu x2 (Some t))) t (PUseSend q r), []))
   | PUseSend q r =>
